@@ -26,6 +26,22 @@ Definition is_pw_send (s : N) (e : event) : bool :=
   match e with EPwSend _ s' _ _ _ _ _ _ _ => s' =? s | _ => false end.
 Definition is_pw_reply (s : N) (e : event) : bool :=
   match e with EPwReply _ s' _ _ => s' =? s | _ => false end.
+(* per-key prewrite accounting: requests of s whose key list contains k / negative replies (key error
+   or region error) of s whose key list contains k *)
+Definition is_pwneg (x : pw_res) : bool := match x with PwOk _ _ => false | _ => true end.
+Definition is_pw_send_k (s k : N) (e : event) : bool :=
+  match e with EPwSend _ s' _ ks _ _ _ _ _ => (s' =? s) && mem k ks | _ => false end.
+Definition is_pw_negreply_k (s k : N) (e : event) : bool :=
+  match e with EPwReply _ s' ks x => (s' =? s) && mem k ks && is_pwneg x | _ => false end.
+(* the same with multiplicity (a key list may mention k several times) *)
+Fixpoint occ (k : N) (ks : list N) : nat :=
+  match ks with [] => 0%nat | x :: r => ((if x =? k then 1 else 0) + occ k r)%nat end.
+Fixpoint sum_of (w : event -> nat) (l : list event) : nat :=
+  match l with [] => 0%nat | e :: r => (w e + sum_of w r)%nat end.
+Definition pw_send_occ (s k : N) (e : event) : nat :=
+  match e with EPwSend _ s' _ ks _ _ _ _ _ => if s' =? s then occ k ks else 0%nat | _ => 0%nat end.
+Definition pw_negreply_occ (s k : N) (e : event) : nat :=
+  match e with EPwReply _ s' ks x => if (s' =? s) && is_pwneg x then occ k ks else 0%nat | _ => 0%nat end.
 
 (* 1 *)
 Definition commit_after_all_prewrites (evs : list event) : Prop :=
@@ -51,14 +67,16 @@ Definition no_rollback_after_possible_commit (evs : list event) : Prop :=
   (forall pre post r s c ks p ms, evs = pre ++ ECmSend r s c ks :: post ->
      In (EMutations s p ms) pre -> forall r' ks', ~ In (ERbSend r' s ks') pre).
 
-(* 4 — third disjunct (async route) differs from the first draft: System.csl_all_locked accepts a
+(* 4 — fourth disjunct (async route) differs from the first draft: System.csl_all_locked accepts a
    resolve justified by a CheckTxnStatus reply "locked, async, secs" plus CheckSecondaryLocks replies
-   for every listed secondary; with secs = [] no csl_reply is needed at all. *)
+   for every listed secondary; with secs = [] no csl_reply is needed at all.  The third disjunct
+   (CheckSecondaryLocks answered with a commit ts) also needs the async primary lock reported to r. *)
 Definition resolve_uses_reported_status (evs : list event) : Prop :=
   forall pre post r s c ks, evs = pre ++ ERsSend r s c ks :: post ->
     (c <> 0 /\ exists p, In (ECtsReply r s p (StCommitted c)) pre) \/
     (c = 0 /\ exists p, In (ECtsReply r s p StRolledBack) pre) \/
-    (exists ks', In (ECslReply r s ks' (CslCommit c)) pre) \/
+    ((exists ks', In (ECslReply r s ks' (CslCommit c)) pre) /\
+     (exists p ttl m secs, In (ECtsReply r s p (StLocked ttl m true secs)) pre)) \/
     (exists p ttl m secs, In (ECtsReply r s p (StLocked ttl m true secs)) pre /\ m <= c /\
        forall k, In k secs ->
          exists ks' l m', In (ECslReply r s ks' (CslLocks l)) pre /\ In (k, m') l /\ m' <= c).
@@ -72,7 +90,12 @@ Definition commit_ts_bounds (evs : list event) : Prop :=
     (forall r' ks' m o, In (EPwReply r' s ks' (PwOk m o)) pre -> m <= c) /\
     (forall pre1 pre2, pre = pre1 ++ ECommitCall s false :: pre2 ->
        (forall cz, ~ In (ECommitCall s cz) pre2) ->
-       forall t, In (ETso t) pre1 -> t < c).
+       forall t, In (ETso t) pre1 -> t < c) /\
+    (* async commit kept (every prewrite request async and not 1PC, no reply with min-commit 0):
+       the commit ts is exactly the maximum of the returned min-commit ts *)
+    ((forall r' p' ks' a o m f secs, In (EPwSend r' s p' ks' a o m f secs) pre -> a = true /\ o = false) ->
+     (forall r' ks' o, ~ In (EPwReply r' s ks' (PwOk 0 o)) pre) ->
+     exists r' ks' o, In (EPwReply r' s ks' (PwOk c o)) pre).
 
 (* 6 (rule 4) *)
 Definition expire_only_expired (evs : list event) : Prop :=
@@ -98,3 +121,32 @@ Definition undetermined_only_if (evs : list event) : Prop :=
     (count_if (is_pc_reply s p) pre < count_if (is_pc_send s p) pre)%nat \/
     ((exists r p' ks a o m f secs, In (EPwSend r s p' ks a o m f secs) pre /\ (a = true \/ o = true)) /\
      (count_if (is_pw_reply s) pre < count_if (is_pw_send s) pre)%nat).
+
+(* 9 (rule 7, definite error).  (c): under async commit / 1PC a successful prewrite is a commit
+   point, so "error" needs a locked mutation that can never be locked any more: every request sent
+   for it was answered negatively.  [told_err_only_if] counts requests/replies whose key list
+   contains k, for duplicate-free key lists; [told_err_only_if_occ] counts with multiplicity and
+   needs no such premise (System.v counts once per occurrence). *)
+Definition told_err_only_if (evs : list event) : Prop :=
+  forall pre post s p ms, evs = pre ++ ETold s TErr :: post ->
+    In (EMutations s p ms) pre ->
+    (forall r c ks, In (ECmReply r s c ks CmOk) pre -> ~ In p ks) /\
+    (count_if (is_pc_send s p) pre = count_if (is_pc_neg s p) pre \/
+     exists r c ks, In (ECmReply r s c ks CmGone) pre /\ In p ks) /\
+    ((exists r p' ks a o m f secs, In (EPwSend r s p' ks a o m f secs) pre /\ (a = true \/ o = true)) ->
+     (forall r p' ks a o m f secs, In (EPwSend r s p' ks a o m f secs) pre -> NoDup ks) ->
+     exists k, In k (lock_keys_of ms) /\
+       count_if (is_pw_send_k s k) pre = count_if (is_pw_negreply_k s k) pre).
+Definition told_err_only_if_occ (evs : list event) : Prop :=
+  forall pre post s p ms, evs = pre ++ ETold s TErr :: post ->
+    In (EMutations s p ms) pre ->
+    (exists r p' ks a o m f secs, In (EPwSend r s p' ks a o m f secs) pre /\ (a = true \/ o = true)) ->
+    exists k, In k (lock_keys_of ms) /\
+      sum_of (pw_send_occ s k) pre = sum_of (pw_negreply_occ s k) pre.
+
+(* 10 (rule 3): CheckSecondaryLocks is only sent for secondaries listed in an async primary lock
+   that was reported to r *)
+Definition csl_only_listed (evs : list event) : Prop :=
+  forall pre post r s ks, evs = pre ++ ECslSend r s ks :: post ->
+    exists p ttl m secs, In (ECtsReply r s p (StLocked ttl m true secs)) pre /\
+      forall k, In k ks -> In k secs.
